@@ -215,6 +215,17 @@ def run(ctx: Ctx):
                 obj, res = apply(kind, obj, v["o"], rnd)
                 post = kind.state(obj)
                 ctx.evaluations += 1
+                # the sorted views follow EVERY way of changing the mapping (pop, popitem, clear, |=, update ...)
+                try:
+                    sk, si = list(obj.sorted_keys()), [k for k, _ in obj.sorted_items()]
+                except Exception as e:   # noqa: BLE001
+                    sk, si = [type(e).__name__], []
+                cur_keys = [S(p[0]) for p in post]
+                order = list(type(obj).canonical_order or ())
+                want_sorted = [k for k in order if k in cur_keys] + sorted(k for k in cur_keys if k not in order)
+                if sk != want_sorted or si != want_sorted:
+                    ctx.fail(f"P:C17:canonical-order", {"cls": kind.name, "path": path[-6:], "after": v["o"]["op"]}, [sk, si], want_sorted)
+                    break
                 if res != v["res"] or post != v["post"]:
                     ctx.fail(f"P:C17:walk-{v['o']['op']}", {"cls": kind.name, "path": path[-6:]},
                              [res, post], [v["res"], v["post"]])
